@@ -229,7 +229,8 @@ def gen_triple(g):
     return {"names": names, "rows": rows, "coefs": G.nested_map(G.jnum, coefs), "kind": kind,
             "shape": list(shape), "defect": defect,
             "retain_coefficients": rng.choice([True, False]), "retain_names": rng.choice([True, False]),
-            "how": rng.choice(["explicit", "explicit", "options", "clean", "clean_options", "method"])}
+            "how": rng.choice(["explicit", "explicit", "options", "clean", "clean_options", "method",
+                               "explicit_vs_global", "explicit_vs_global", "clean_vs_global"])}
 
 
 def run_triple(case, ctx):
@@ -258,6 +259,15 @@ def run_triple(case, ctx):
         if how == "method":
             return numpoly.ndpoly.from_attributes(exps, coefs, names, retain_coefficients=rc,
                                                   retain_names=rn)
+        if how in ("explicit_vs_global", "clean_vs_global"):
+            # the explicit flags must win over whatever the global options say
+            with numpoly.global_options(retain_coefficients=not rc, retain_names=not rn):
+                if how == "explicit_vs_global":
+                    return numpoly.polynomial_from_attributes(exps, coefs, names,
+                                                              retain_coefficients=rc, retain_names=rn)
+                full = numpoly.polynomial_from_attributes(exps, coefs, names,
+                                                          retain_coefficients=True, retain_names=True)
+                return numpoly.clean_attributes(full, retain_coefficients=rc, retain_names=rn)
         if how == "options":
             with numpoly.global_options(retain_coefficients=rc, retain_names=rn):
                 return numpoly.polynomial_from_attributes(exps, coefs, names)
